@@ -10,6 +10,7 @@ import (
 	"time"
 
 	"git.torproject.org/pluggable-transports/snowflake.git/v2/common/event"
+	"git.torproject.org/pluggable-transports/snowflake.git/v2/common/util"
 	"github.com/pion/ice/v2"
 	"github.com/pion/webrtc/v3"
 )
@@ -171,7 +172,7 @@ func (c *WebRTCPeer) connect(config *webrtc.Configuration, broker *BrokerChannel
 		return err
 	}
 	log.Printf("Received Answer.\n")
-	err = c.pc.SetRemoteDescription(*answer)
+	err = util.SetRemoteDescription(c.pc, *answer)
 	if nil != err {
 		log.Println("WebRTC: Unable to SetRemoteDescription:", err)
 		return err
